@@ -216,7 +216,9 @@ def apply_reference(repo):
     except RecursionError:
         inl = {}
     repo.inlined_aliases = inl
+    repo.folded_temporaries = inline_new_temporaries(repo, ref) if not os.environ.get("VERIF_NO_FOLD_TEMPS") else {}
     repo.respelled = respell(repo, ref)
+    repo.positional = positional_calls(repo, ref)
     return renamed
 
 
@@ -605,4 +607,195 @@ def respell(repo, ref):
         n_changed += _reshape(fi, ref[q])
         if n_changed:
             changed[q] = n_changed
+    return changed
+
+
+# ----------------------------------------------------------------------------------------------------------------------
+# new single-use temporaries (`receiver = FragmentReceiver(...)` used once in the next statement) are folded back
+
+def _pos(n):
+    return (getattr(n, "lineno", 0), getattr(n, "col_offset", 0))
+
+
+def _ancestors(n, stop):
+    out = []
+    p = getattr(n, "_parent", None)
+    while p is not None and p is not stop:
+        out.append(p)
+        p = getattr(p, "_parent", None)
+    return out
+
+
+def _header_nodes(st):
+    """sub-expressions of a statement that are evaluated exactly once when the statement is reached, before any nested block"""
+    if isinstance(st, (ast.Expr, ast.Return, ast.Assign, ast.AugAssign, ast.AnnAssign, ast.Raise, ast.Assert, ast.Delete)):
+        return [st]
+    if isinstance(st, ast.If):
+        return [st.test]
+    if isinstance(st, (ast.For, ast.AsyncFor)):
+        return [st.iter]
+    if isinstance(st, (ast.With, ast.AsyncWith)):
+        return [st.items[0].context_expr] if st.items else []
+    return []
+
+
+def inline_new_temporaries(repo, ref):
+    """`t = E` immediately followed by a statement that reads t exactly once (and nothing else reads it) is the statement
+    with E in place of t, provided nothing that could interfere is evaluated between: no call of the using statement is
+    evaluated before the read, the read is not under a conditional / repeated sub-expression, and t is a local the
+    reference version of the function does not have.  The binding statement is removed from the in-memory tree."""
+    folded = {}
+    for q, fi in repo.funcs.items():
+        if fi.is_lambda or q not in ref:
+            continue
+        ref_locals = {n for n, _ in ref[q]["locals"]} | set(ref[q]["params"])
+        nested = _nested_uses(fi.node)
+        progress = True
+        while progress:
+            progress = False
+            for owner, field, blk in _blocks(fi.node):
+                for i, st in enumerate(blk[:-1]):
+                    if not (isinstance(st, ast.Assign) and len(st.targets) == 1 and isinstance(st.targets[0], ast.Name)):
+                        continue
+                    name = st.targets[0].id
+                    if name in ref_locals or name in nested:
+                        continue
+                    if isinstance(st.value, (ast.Yield, ast.YieldFrom, ast.Await, ast.NamedExpr, ast.Lambda)):
+                        continue
+                    occ = [n for n in walk_own(fi.node) if isinstance(n, ast.Name) and n.id == name]
+                    loads = [n for n in occ if isinstance(n.ctx, ast.Load)]
+                    if len(occ) != 2 or len(loads) != 1:
+                        continue
+                    use = loads[0]
+                    nxt = blk[i + 1]
+                    roots = _header_nodes(nxt)
+                    root = None
+                    for r in roots:
+                        if any(x is use for x in ast.walk(r)):
+                            root = r
+                    if root is None:
+                        continue
+                    anc = _ancestors(use, getattr(root, "_parent", None))
+                    # not under conditional / repeated evaluation
+                    bad = False
+                    child = use
+                    for a in anc:
+                        if isinstance(a, (ast.Lambda, ast.ListComp, ast.SetComp, ast.DictComp, ast.GeneratorExp)):
+                            bad = True
+                        if isinstance(a, ast.BoolOp) and a.values[0] is not child:
+                            bad = True
+                        if isinstance(a, ast.IfExp) and a.test is not child:
+                            bad = True
+                        if isinstance(a, ast.Compare) and len(a.ops) > 1 and a.left is not child and a.comparators[0] is not child:
+                            bad = True
+                        child = a
+                    if bad:
+                        continue
+                    # nothing with an effect is evaluated in the using statement before the read
+                    anc_ids = {id(a) for a in anc}
+                    in_target = isinstance(nxt, (ast.Assign, ast.AugAssign, ast.AnnAssign)) and not any(x is use for x in ast.walk(nxt.value)) if hasattr(nxt, "value") and nxt.value is not None else False
+                    for c in ast.walk(root):
+                        if isinstance(c, (ast.Call, ast.Await, ast.Yield, ast.YieldFrom, ast.NamedExpr)) and id(c) not in anc_ids and not any(x is c for x in ast.walk(use)):
+                            if in_target or _pos(c) < _pos(use):
+                                bad = True
+                                break
+                    if bad:
+                        continue
+                    _install(use, st.value)
+                    del blk[i]
+                    _invalidate(owner)
+                    folded.setdefault(q, []).append(name)
+                    progress = True
+                    break
+                if progress:
+                    break
+    return folded
+
+
+# ----------------------------------------------------------------------------------------------------------------------
+# keyword arguments of calls to package functions are put back into their positional slots
+
+_COMMON_METHOD_NAMES = {"get", "update", "append", "pop", "send", "write", "read", "close", "add", "remove", "insert", "items", "keys", "values",
+                        "clear", "copy", "index", "count", "join", "split", "encode", "decode", "format", "run", "start", "stop", "connect",
+                        "info", "debug", "warning", "error", "exception", "log", "sign", "verify", "encrypt", "decrypt", "seek", "tell"}
+
+
+def _signatures(repo):
+    """callee short name -> positional parameter names (without self / cls), for names with one unambiguous signature"""
+    by = {}
+    for q, fi in repo.funcs.items():
+        if fi.is_lambda or fi.parent is not None:
+            continue
+        a = fi.node.args
+        if a.vararg is not None or a.posonlyargs:
+            sig = None
+        else:
+            names = [x.arg for x in a.args]
+            if fi.cls is not None and not fi.is_static and names:
+                names = names[1:]
+            sig = tuple(names)
+        name = fi.name
+        if name == "__init__" and fi.cls is not None:
+            name = fi.cls.name
+        elif name.startswith("__"):
+            continue
+        by.setdefault(name, set()).add(sig)
+    # a class without an own __init__ has no entry; a class name that is also a function name is ambiguous by construction
+    return {n: list(s)[0] for n, s in by.items() if len(s) == 1 and list(s)[0] is not None and n not in _COMMON_METHOD_NAMES}
+
+
+def package_callee_name(repo, mod, call):
+    """the callee's short name when the call syntactically addresses a package definition: self.m / cls.m / super().m,
+    a bare name defined at the module's top level or imported from a package module, or Class.m / module.f through such a name"""
+    f = call.func
+
+    def package_name(n):
+        if n in mod.funcs or n in mod.classes:
+            return True
+        imp = mod.imports.get(n)
+        if imp is None:
+            return False
+        target = imp[1]
+        return repo.import_target_module(mod, target) is not None or (imp[0] == "module" and repo.import_target_module(mod, target.lstrip(".")) is not None)
+    if isinstance(f, ast.Name):
+        return f.id if package_name(f.id) else None
+    if isinstance(f, ast.Attribute):
+        v = f.value
+        if isinstance(v, ast.Name) and (v.id in ("self", "cls") or package_name(v.id)):
+            return f.attr
+        if isinstance(v, ast.Call) and isinstance(v.func, ast.Name) and v.func.id == "super":
+            return f.attr
+    return None
+
+
+def positional_calls(repo, ref):
+    """f(a, y=c, x=b) -> f(a, b, c) when f names exactly one signature in the package and the keywords fill the next slots"""
+    sigs = None
+    changed = {}
+    for q, fi in repo.funcs.items():
+        if fi.is_lambda or q not in ref:
+            continue
+        for c in list(walk_own(fi.node)):
+            if not (isinstance(c, ast.Call) and c.keywords and all(k.arg is not None for k in c.keywords)):
+                continue
+            if any(isinstance(a, ast.Starred) for a in c.args):
+                continue
+            name = package_callee_name(repo, fi.module, c)
+            if name is None:
+                continue
+            if sigs is None:
+                sigs = _signatures(repo)
+            sig = sigs.get(name)
+            if sig is None:
+                continue
+            kw = {k.arg: k for k in c.keywords}
+            moved = 0
+            while len(c.args) < len(sig) and sig[len(c.args)] in kw:
+                k = kw.pop(sig[len(c.args)])
+                c.args.append(k.value)
+                c.keywords.remove(k)
+                moved += 1
+            if moved:
+                _invalidate(c)
+                changed[q] = changed.get(q, 0) + moved
     return changed
